@@ -56,6 +56,18 @@ pub fn computed() -> Vec<Value> {
     ]
 }
 
+fn values_for(thorough: bool) -> Vec<Value> {
+    let mut v = values();
+    if thorough {
+        v.extend(al::pair_corpus_thorough());
+        v.extend(al::s_uni_rich(2).into_iter().map(Value::String));
+        v.extend(al::decimal_strings().into_iter().step_by(7));
+        v.extend(al::factor_boundaries());
+        v = al::dedup(v);
+    }
+    v
+}
+
 pub fn run(ctx: &mut Ctx) {
     // computed operands: what the operators themselves return, in every deciding position
     for e in computed() {
@@ -94,7 +106,7 @@ pub fn run(ctx: &mut Ctx) {
             }
         }
     }
-    for v in values() {
+    for v in values_for(ctx.tier_thorough) {
         for (_ch, e, d) in channels(&v) {
             if !ctx.mine() {
                 continue;
